@@ -3,10 +3,13 @@ package registry
 
 import (
 	"verif/engine/h/c13"
+	"verif/engine/h/c15"
 	"verif/engine/h/selftest"
 )
 
 var Entries = map[string]func(){
+	"c15.H_Bytes":         c15.H_Bytes,
+	"c15.H_Seed":          c15.H_Seed,
 	"c13.H_Accept":        c13.H_Accept,
 	"c13.H_Value":         c13.H_Value,
 	"c13.H_Window":        c13.H_Window,
